@@ -69,7 +69,7 @@ A_LOSSY = ["nan", "inf", "ninf", "tuple", "etuple", "intkey", "boolkey", "listna
 A_NONJSON = ["bytes", "set", "object", "complex", "decimal", "datetime", "class", "type", "excinst", "frozenset", "range",
              "huge", "dictbytes", "circular", "tuplekey"]
 A_NOREPR = ["badrepr", "onlystr"]
-A_NOPICKLE = ["lambda", "lock", "localobj", "gen", "listlambda", "module"]
+A_NOPICKLE = ["lambda", "lock", "localobj", "gen", "listlambda", "module", "badreprlock", "onlystrlock"]
 A_SURR = ["surr", "surrnest", "surrval", "surrtuple"]
 A_SURRKEY = ["surrkey", "surrkeynest"]
 SCALARS = {"int", "neg", "zero", "str", "empty", "none", "true", "false", "float"}
@@ -126,7 +126,15 @@ def gen_node(r, n, shadow, surr):
 def gen_case(r, shadow=False):
     n = r.choice([1, 1, 2, 2, 3, 3, 4, 4, 5, 6])
     surr = r.random() < .3
-    return dict(nodes=[gen_node(r, n, shadow, surr) for _ in range(n)], family="shadow" if shadow else "main")
+    nodes = [gen_node(r, n, shadow, surr) for _ in range(n)]
+    if n >= 3 and r.random() < .3:
+        # a chain through all nodes (depth n), the other link of each node stays random (back-links, shared nodes)
+        for i, s in enumerate(nodes[:-1]):
+            if r.random() < .5:
+                s["cause"] = i + 1
+            else:
+                s["context"], s["suppress"] = i + 1, False
+    return dict(nodes=nodes, family="shadow" if shadow else "main")
 
 
 def reach(case):
@@ -236,6 +244,9 @@ def oracle_class(enc, n, t):
     elif isinstance(k, list) and k[0] == "KBase":
         if enc != "pickle":
             return "loaded error is not one of the listed stand-ins", "base class on a JSON path"
+        i = k[1]
+        if i >= len(n["mro"]) or not n["mro"][i]["ok_pickle"] or any(m["ok_pickle"] for m in n["mro"][:i]):
+            return "base-class stand-in is not the nearest reconstructible base class", "MRO index %d" % i
     else:
         return "loaded error is not one of the listed stand-ins", str(k)
     if isinstance(a, list) and (k in ("KSynth", "KSynthSer", "KWrap") or (k == "KOrig" and n["own_recon"])):
@@ -430,15 +441,15 @@ def run(ctx):
             if any(pred(f) for f in rep.failures[before:]):
                 corpus_known[sig] = True
     r = ctx.sub_rng("gen")
-    cases = [gen_case(r) for _ in range(ctx.n(1500, 60000))]
+    cases = [gen_case(r) for _ in range(ctx.n(3000, 60000))]
     broken, _ = explore(ctx, rep, cases, "main")
     rs = ctx.sub_rng("shadow")
-    b2, _ = explore(ctx, rep, [gen_case(rs, shadow=True) for _ in range(ctx.n(150, 4000))], "shadow", use_oracle=False)
+    b2, _ = explore(ctx, rep, [gen_case(rs, shadow=True) for _ in range(ctx.n(300, 4000))], "shadow", use_oracle=False)
     broken = broken or b2
     unexplained = [f for f in rep.failures if not any(p(f) for p in SIGNATURES.values())]
     if (broken or any(not o["ok"] for o in rep.obligations)) and not unexplained:
         r2 = ctx.sub_rng("search")
-        explore(ctx, rep, [gen_case(r2) for _ in range(ctx.n(6000, 60000))], "search")
+        explore(ctx, rep, [gen_case(r2) for _ in range(ctx.n(12000, 60000))], "search")
     return rep.finish(SIGNATURES, corpus_known)
 
 
